@@ -32,13 +32,26 @@ type crashCase struct {
 	Stmts   []string    `json:"stmts"`   // data-changing statements before COMMIT
 	Creates int         `json:"creates"` // number of CREATE TABLE statements among them
 	Updates int         `json:"updates"` // number of distinct existing tables changed
+	// files that already exist at the path of a CREATE TABLE statement (zero length, or a small table): csvq refuses
+	// the statement today ("already exists"); whatever it does, a file that existed before the transaction is
+	// complete-old or complete-new at every crash point
+	Pre []preFile `json:"pre,omitempty"`
+}
+
+type preFile struct {
+	Name    string `json:"name"`
+	Content string `json:"content"`
 }
 
 var exts = []string{".csv", ".csv", ".csv", ".tsv", ".json", ".ltsv", ".jsonl"}
 
 var cellPool = []string{"a", "b", "hello world", "x,y", "q\"uote", "", "日本語", "42", "3.5", "line", "tab", "O'Neil", "[S]k:v"}
 
-func genCase(t *rapid.T) crashCase {
+func genCase(t *rapid.T) crashCase { return genCaseOpt(t, false) }
+
+func genCasePre(t *rapid.T) crashCase { return genCaseOpt(t, true) }
+
+func genCaseOpt(t *rapid.T, allowPre bool) crashCase {
 	c := crashCase{}
 	nt := fw.Range(t, "ntables", 1, 3)
 	for i := 0; i < nt; i++ {
@@ -84,6 +97,9 @@ func genCase(t *rapid.T) crashCase {
 				created++
 				ext := fw.PickU(t, "cext", []string{".csv", ".tsv", ".json", ""})
 				name := fmt.Sprintf("n%d%s", created, ext)
+				if allowPre && fw.Pct(t, "preExisting", 15) {
+					c.Pre = append(c.Pre, preFile{Name: name, Content: fw.PickU(t, "preContent", []string{"", "", "a,b\n", "a,b\n0,w\n"})})
+				}
 				c.Stmts = append(c.Stmts, fmt.Sprintf("CREATE TABLE `%s` (a, b)", name))
 				c.Stmts = append(c.Stmts, fmt.Sprintf("INSERT INTO `%s` VALUES (1, 'x'), (2, 'y')", name))
 			} else {
@@ -178,6 +194,10 @@ func setupDir(c crashCase, tag string) (string, map[string]string) {
 			plain[ts.Name] = files[ts.Name]
 		}
 	}
+	for _, pf := range c.Pre {
+		files[pf.Name] = pf.Content
+		plain[pf.Name] = pf.Content
+	}
 	_ = run.WriteFiles(dir, plain)
 	for _, ts := range c.Tables {
 		if ts.Link {
@@ -216,7 +236,19 @@ func checkCase(c crashCase) (fw.Outcome, *fw.Violation) {
 	logb, _ := os.ReadFile(logp)
 	_ = os.Remove(logp)
 	if r.Code != 0 {
+		snapFail := run.Snapshot(dir)
 		_ = os.RemoveAll(dir)
+		if len(c.Pre) > 0 && strings.Contains(r.Stderr, "already exists") {
+			// CREATE TABLE over an existing file is refused: the run ends without a commit and every file is as it was
+			for _, name := range keys(old) {
+				if snapFail[name] != old[name] {
+					return o, fw.V("file_changed_by_refused_create", "CREATE TABLE over the existing file was refused (%s) but %s changed: %q -> %q\nprogram:\n%s", strings.TrimSpace(r.Stderr), name, old[name], snapFail[name], prog)
+				}
+			}
+			o.Discard = true
+			o.Classes = append(o.Classes, "create_refused_existing_file")
+			return o, nil
+		}
 		if strings.Contains(r.Stderr, "data empty") {
 			// an LTSV table whose last record was deleted cannot be written (the format has no header
 			// without records): csvq refuses the commit, so there is no commit to crash
@@ -273,16 +305,16 @@ func checkCase(c crashCase) (fw.Outcome, *fw.Violation) {
 			return o, fw.Harness("process was not killed at %s (exit %d, stderr %q)", pt, kr.Code, kr.Stderr)
 		}
 		snap := run.Snapshot(dir)
-		for _, ts := range c.Tables {
-			got, ok := snap[ts.Name]
+		for _, tname := range keys(old) {
+			got, ok := snap[tname]
 			name := strings.SplitN(pt, "#", 2)[0]
 			if !ok {
 				_ = os.RemoveAll(dir)
-				return o, fw.V("table_missing_after_crash@"+name, "killed at %s: table %s no longer exists at its path (directory: %v)\nprogram:\n%s", pt, ts.Name, keys(snap), prog)
+				return o, fw.V("table_missing_after_crash@"+name, "killed at %s: table %s no longer exists at its path (directory: %v)\nprogram:\n%s", pt, tname, keys(snap), prog)
 			}
-			if got != old[ts.Name] && got != newSnap[ts.Name] {
+			if got != old[tname] && got != newSnap[tname] {
 				_ = os.RemoveAll(dir)
-				return o, fw.V("table_torn_after_crash@"+name, "killed at %s: table %s is neither old nor new: %d bytes (old %d, new %d)\nprogram:\n%s", pt, ts.Name, len(got), len(old[ts.Name]), len(newSnap[ts.Name]), prog)
+				return o, fw.V("table_torn_after_crash@"+name, "killed at %s: table %s is neither old nor new: %d bytes (old %d, new %d)\nprogram:\n%s", pt, tname, len(got), len(old[tname]), len(newSnap[tname]), prog)
 			}
 		}
 		// 3. recovery as the manual instructs: delete hidden control files, then use the tables
@@ -333,8 +365,8 @@ func keys(m map[string]string) []string {
 func TestC10CrashPoints(t *testing.T) {
 	fw.Run(t, fw.Spec[crashCase]{
 		ID: "C10", Name: "crash_points", Quick: 200, Thorough: 3200,
-		Gen: genCase, Check: checkCase,
-		Rule: "generated repositories (1-3 tables in CSV/TSV/JSON/JSONL/LTSV, some >64KiB, some reached through a symbolic link) and transactions (UPDATE/INSERT/DELETE on 1-3 tables, 0-2 CREATE TABLE) ending in COMMIT; a dry run logs every verification point passed from Transaction.Commit to process end; for EVERY such point the process is killed there (SIGKILL to itself) on a fresh copy; oracle: every pre-existing table exists and is byte-identical to its old or its new contents, and after deleting the hidden control files a fresh csvq can read and update every table; evaluations = kills; non-trivial = a kill after the first file-system mutation of the commit and before its last steps, distinct by (point name, hit index class, #updated, #created)",
+		Gen: genCasePre, Check: checkCase,
+		Rule: "generated repositories (1-3 tables in CSV/TSV/JSON/JSONL/LTSV, some >64KiB, some reached through a symbolic link) and transactions (UPDATE/INSERT/DELETE on 1-3 tables, 0-2 CREATE TABLE; for 15% of the CREATE TABLE statements a file already exists at that path, of zero length or holding a small table - csvq refuses the statement, the case is then only checked for unchanged files and discarded; a csvq that accepts it has that file judged old-or-new like every other) ending in COMMIT; a dry run logs every verification point passed from Transaction.Commit to process end; for EVERY such point the process is killed there (SIGKILL to itself) on a fresh copy; oracle: every pre-existing table exists and is byte-identical to its old or its new contents, and after deleting the hidden control files a fresh csvq can read and update every table; evaluations = kills; non-trivial = a kill after the first file-system mutation of the commit and before its last steps, distinct by (point name, hit index class, #updated, #created)",
 		Assumptions: []string{"crash = process death at a hooked point between file-system calls (SIGKILL); torn single write(2) calls and power loss are not modelled",
 			"the new contents are taken from an uninterrupted run of the same program"},
 	})
